@@ -204,8 +204,24 @@ func encKey(v *val.Val) string {
 	return sxList(tag, sxStr(text))
 }
 
-func valrelCase(r *rand.Rand, a, b *val.Val, tag string) Case {
-	c := Case{Tags: []string{"valrel:" + tag, "valrel:type:" + a.Type.Kind.String()}, Nontriv: true}
+func valrelCase(r *rand.Rand, a, b *val.Val, tag string) (c Case) {
+	// equality, rendering, keys and the set functions run on values built by the harness: a panic
+	// in any of them is a finding about that pair, not a reason to lose the stream
+	pre := "valrel[" + tag + "] " + safely(func() string { return encVal(a) + " ~ " + encVal(b) })
+	if len(pre) > 600 {
+		pre = pre[:600] + "…"
+	}
+	if guardBegin(pre) {
+		return crashCase(pre)
+	}
+	defer func() {
+		if r := recover(); r != nil {
+			c = Case{Human: pre, Want: "panic", Tags: []string{"valrel:" + tag, "valrel:panic"}, Nontriv: true,
+				Oracle: fmt.Sprintf("==, rendering, keying or union panics on this pair: %v", r), OracleID: "valrel-panic"}
+		}
+		guardEnd()
+	}()
+	c = Case{Tags: []string{"valrel:" + tag, "valrel:type:" + a.Type.Kind.String()}, Nontriv: true}
 	c.Req = sxList("valrel", encVal(a), encVal(b))
 	eq, qe := val.Equals(a, b), val.Equals(b, a)
 	ra, rb := a.String(), b.String()
